@@ -16,6 +16,24 @@ _ce_params = {"y": A2("Y"), "home_streak_min": INT, "home_streak_max": INT, "awa
               "away_streak_max": INT, "separation_min": INT, "separation_max": INT,
               "temp_1": A1("T", uninit=True), "temp_2": A2("T", uninit=True)}
 
+# hc(y, a, b, d): number of days before d on which team a plays at home against team b
+spec("hc(y, a, b, d)", "0 if d <= 0 else hc(y, a, b, d - 1) + (1 if y[d - 1, a] == b + 1 else 0)",
+     ptypes=["arr2", "int", "int", "int"], qdef=True)
+spec("pair_ok(y, a, b, D, g)", "hc(y, a, b, D) + hc(y, b, a, D) == g and hc(y, a, b, D) - hc(y, b, a, D) <= 1"
+     " and hc(y, b, a, D) - hc(y, a, b, D) <= 1", ret="bool")
+
+# hs / aw: length of the home / away streak of team t that ends with day d - 1 (0 if that day is not a home / away game)
+spec("hs(y, t, d)", "0 if d <= 0 else (hs(y, t, d - 1) + 1 if y[d - 1, t] > 0 else 0)", ptypes=["arr2", "int", "int"], qdef=True)
+spec("aw(y, t, d)", "0 if d <= 0 else (aw(y, t, d - 1) + 1 if y[d - 1, t] < 0 else 0)", ptypes=["arr2", "int", "int"], qdef=True)
+# a streak that is followed by something else on day d must have reached its minimum length
+spec("end_ok(y, t, d, hmin, amin)", "(implies(hs(y, t, d) > 0 and y[d, t] <= 0, hs(y, t, d) >= hmin)) and "
+     "(implies(aw(y, t, d) > 0 and y[d, t] >= 0, aw(y, t, d) >= amin))", ret="bool")
+spec("last_ok(y, t, D, hmin, amin)", "(implies(hs(y, t, D) > 0, hs(y, t, D) >= hmin)) and (implies(aw(y, t, D) > 0, aw(y, t, D) >= amin))",
+     ret="bool")
+spec("team_streaks_ok(y, t, D, hmin, hmax, amin, amax)",
+     "forall(d, 1, D + 1, hs(y, t, d) <= hmax and aw(y, t, d) <= amax) and forall(d, 1, D, end_ok(y, t, d, hmin, amin))"
+     " and last_ok(y, t, D, hmin, amin)", ret="bool")
+
 contract(
     ER + ":count_errors",
     props="C07",
@@ -28,10 +46,13 @@ contract(
         # all that GamePlanSpace.validate establishes: entries in -n..n (self-play included!)
         "forall(d, 0, D, forall(t, 0, n, -n <= y[d, t] and y[d, t] <= n))",
         "2 * len(temp_1) == n * (n - 1) and shape(temp_2, 0) == n and shape(temp_2, 1) == n",
+        # ttp.Instance.__new__: check_int_range(home_streak_min, 1, ll), (home_streak_max, home_streak_min, ll), same for away
+        "1 <= home_streak_min and home_streak_min <= home_streak_max and 1 <= away_streak_min and away_streak_min <= away_streak_max",
         # Errors.__init__: dtype = int_range_to_dtype(-1, (n - 1) * rounds) with D = (n - 1) * rounds  (E1)
         "T_lo <= -1 and T_hi >= D and T_hi <= 2**63 - 1 and Y_hi <= 2**63 - 1 and Y_lo < 0",
     ],
     modifies=["temp_1", "temp_2"],
+    split=["if#5", "if#7", "if#12"],     # home game / away game, streak continues / begins: kept as separate paths
     loops={
         "0": Loop(inv=[
             tag("C07", "nonneg", "0 <= errors"),
@@ -41,7 +62,10 @@ contract(
             tag("C07 C13", "temp1-range", "forall(k, 0, len(temp_1), -1 <= temp_1[k] and temp_1[k] < D)"),
             tag("C07 C13", "temp2-range", "forall(a, 0, n, forall(b, 0, n, 0 <= temp_2[a, b] and temp_2[a, b] <= D))"),
             tag("C07", "temp2-rows-ahead", "forall(a, team_1, n, forall(b, 0, n, temp_2[a, b] == 0))"),
+            tag("C07", "temp2-counts-home-games", "forall(a, 0, team_1, forall(b, 0, n, temp_2[a, b] == hc(y, a, b, D)))"),
             tag("C07", "zero-implies-consistent", "implies(errors == 0, forall(t, 0, team_1, forall(d, 0, D, cell_ok(y, d, t, n))))"),
+            tag("C07", "zero-implies-streaks-in-range", "implies(errors == 0, forall(t, 0, team_1, team_streaks_ok(y, t, D, "
+                "home_streak_min, home_streak_max, away_streak_min, away_streak_max)))"),
         ]),
         "0.0": Loop(inv=[
             tag("C07", "nonneg", "0 <= errors and errors >= at_loop(errors)"),
@@ -52,17 +76,39 @@ contract(
             tag("C07 C13", "temp2-range", "forall(a, 0, n, forall(b, 0, n, 0 <= temp_2[a, b] and temp_2[a, b] <= D))"),
             tag("C07 C13", "temp2-row", "forall(b, 0, n, temp_2[team_1, b] <= day)"),
             tag("C07", "temp2-rows-ahead", "forall(a, team_1 + 1, n, forall(b, 0, n, temp_2[a, b] == 0))"),
+            tag("C07", "temp2-counts-home-games", "forall(a, 0, team_1, forall(b, 0, n, temp_2[a, b] == hc(y, a, b, D)))"
+                " and forall(b, 0, n, temp_2[team_1, b] == hc(y, team_1, b, day))"),
             tag("C07", "zero-implies-consistent", "implies(errors == 0, forall(d, 0, day, cell_ok(y, d, team_1, n))"
                 " and forall(t, 0, team_1, forall(d, 0, D, cell_ok(y, d, t, n))))"),
+            tag("C07", "streak-state", "is_in_home_streak == (hs(y, team_1, day) > 0) and is_in_away_streak == (aw(y, team_1, day) > 0)"
+                " and (implies(is_in_home_streak, home_streak_len == hs(y, team_1, day)))"
+                " and (implies(is_in_away_streak, away_streak_len == aw(y, team_1, day))) and 0 <= day and day <= D"
+                " and hs(y, team_1, day) >= 0 and aw(y, team_1, day) >= 0"),
+            tag("C07", "zero-implies-streaks-in-range", "implies(errors == 0, "
+                "forall(d, 1, day + 1, hs(y, team_1, d) <= home_streak_max and aw(y, team_1, d) <= away_streak_max) and "
+                "forall(d, 1, day, end_ok(y, team_1, d, home_streak_min, away_streak_min)) and "
+                "forall(t, 0, team_1, team_streaks_ok(y, t, D, home_streak_min, home_streak_max, away_streak_min, away_streak_max)))"),
         ]),
-        "1": Loop(inv=[tag("C07", "nonneg", "0 <= errors and errors >= at_loop(errors)")]),
-        "1.0": Loop(inv=[tag("C07", "nonneg", "0 <= errors and errors >= at_loop(errors)")]),
+        "1": Loop(inv=[tag("C07", "nonneg", "0 <= errors and errors >= at_loop(errors)"),
+                       tag("C07", "zero-implies-pairings-right", "implies(errors == 0, forall(a, 0, i, forall(b, 0, a, "
+                           "pair_ok(y, a, b, D, games_per_combo))))")]),
+        "1.0": Loop(inv=[tag("C07", "nonneg", "0 <= errors and errors >= at_loop(errors)"),
+                         tag("C07", "zero-implies-pairings-right", "implies(errors == 0, forall(a, 0, i, forall(b, 0, a, "
+                             "pair_ok(y, a, b, D, games_per_combo))) and forall(b, 0, j, pair_ok(y, i, b, D, games_per_combo)))"
+                             " and 0 <= i and i < n")]),
     },
     lemmas_at={"after assign team_2 #0": ["tri_bound(team_1, team_2, n)", "tri_bound(team_2, team_1, n)"],
                "after assign team_2 #1": ["tri_bound(team_1, team_2, n)", "tri_bound(team_2, team_1, n)"]},
     ensures=[
         tag("C07", "nonneg", "0 <= result"),
         tag("C07", "zero-implies-played-and-consistent", "implies(result == 0, forall(t, 0, n, forall(d, 0, D, cell_ok(y, d, t, n))))"),
+        tag("C07", "zero-implies-no-streak-leaves-its-permitted-range",
+            "implies(result == 0, forall(t, 0, n, team_streaks_ok(y, t, D, home_streak_min, home_streak_max, away_streak_min, "
+            "away_streak_max)))"),
+        # every pairing occurs days // (n - 1) times in total and its home / away roles differ by at most one
+        tag("C07", "zero-implies-pairings-occur-as-prescribed-with-balanced-roles",
+            "games_per_combo == D // (n - 1) and "
+            "implies(result == 0, forall(a, 0, n, forall(b, 0, a, pair_ok(y, a, b, D, games_per_combo))))"),
     ],
     must_fail=["result == 0"],
 )
@@ -291,7 +337,9 @@ contract(
     # class invariant (established by __init__) + what GamePlanSpace.validate establishes about x
     requires=_ERR_INV + ["shape(x, 0) == (n - 1) * rounds and shape(x, 1) == n",
                          "forall(d, 0, (n - 1) * rounds, forall(t, 0, n, -n <= x[d, t] and x[d, t] <= n))",
-                         "Y_lo < 0 and Y_hi <= 2**63 - 1", "T1_lo == T2_lo and T1_hi == T2_hi"],
+                         "Y_lo < 0 and Y_hi <= 2**63 - 1", "T1_lo == T2_lo and T1_hi == T2_hi",
+                         # ttp.Instance.__new__ validates the limits with check_int_range(min, 1, ll) / (max, min, ll)
+                         "1 <= hsmin and hsmin <= hsmax and 1 <= asmin and asmin <= asmax"],
     calls={"count_errors": {"n": "n", "D": "(n - 1) * rounds"}},
     returns=INT,
     ensures=[tag("C07", "nonneg", "result >= 0")],
